@@ -863,6 +863,7 @@ var peerKinds = []struct {
 	{"authenticated-P1", "P1", true},
 	{"authenticated-P2", "P2", true},
 	{"authenticated-outsider-P4", "P4", true},
+	{"authenticated-lookalike-of-P1-other-letter-case", "P1~case", true}, // did:nuts ids are base58, case-sensitive: another identity
 	{"authenticated-self", "self", true},
 }
 
@@ -877,6 +878,8 @@ func (w *world) setupNode(name string) *node {
 				continue
 			}
 			id = n.id
+		case "P1~case":
+			id = otherLetterCase(w.ids["P1"])
 		default:
 			id = w.ids[k.who]
 		}
@@ -1443,4 +1446,24 @@ func authenticator(w *world, n1 *node) {
 	if r.Get("authenticator/match/authenticated") == 0 {
 		r.Fatalf("tlsAuthenticator never authenticated a matching certificate: the certificate cases are broken")
 	}
+}
+
+// otherLetterCase returns the DID that differs from id only in the letter case of its method-specific id.
+func otherLetterCase(id did.DID) did.DID {
+	str := id.String()
+	i := strings.LastIndex(str, ":") + 1
+	b := []byte(str)
+	for k := i; k < len(b); k++ {
+		switch {
+		case b[k] >= 'a' && b[k] <= 'z':
+			b[k] -= 32
+		case b[k] >= 'A' && b[k] <= 'Z':
+			b[k] += 32
+		}
+	}
+	out, err := did.ParseDID(string(b))
+	if err != nil || out.String() == str {
+		panic("cannot build a letter-case variant of " + str)
+	}
+	return *out
 }
